@@ -268,6 +268,21 @@ def check_case(rec, name, make_inner, x, cps, stat_name, lo, hi, rep, inp, prefi
         else:
             key = "StatThresholdAnomaliser.predict:wrong-segments"
         rec.violation(key, f"{desc}: reported {got}, the out-of-range segments are {want}", "C17.flags", inp)
+    else:
+        # the same anomalies read through transform: every flagged segment carries its OWN label on exactly its rows (1..K in
+        # order), also when two flagged segments touch; everything else is 0
+        try:
+            dense = np.asarray(anom.transform(X)).reshape(-1)
+            lab = np.zeros(len(dense), dtype=np.int64)
+            for i, (a, b) in enumerate(want):
+                lab[a:b] = i + 1
+            if not np.array_equal(dense.astype(np.int64), lab):
+                rec.violation("StatThresholdAnomaliser.transform:labels", f"{desc}: transform labels the rows {dense.astype(int).tolist()}, the "
+                              f"out-of-range segments {want} demand {lab.tolist()}", "C17.flags", inp)
+        except Exception as e:                                                  # noqa: BLE001
+            if not rep.startswith("ndarray"):
+                rec.violation(f"StatThresholdAnomaliser.transform:raises:{type(e).__name__}", f"{desc}: transform raised {type(e).__name__}: "
+                              f"{str(e)[:160]}", "C17.flags", inp)
     if err is None or hasattr(anom, "change_detector_"):
         check_user_object(rec, name, inner, before, anom, inp, was_fitted=prefit is not None)
     return True, bool(want)
